@@ -78,10 +78,10 @@ CLAIMED = {
          "three regular expressions is validated by the correspondence, not proved against std::regex.",
          "Coq proof (length bound of regex subjects for all inputs) + isolated-process differential execution with stack measurement"),
  "C12": ("proof", "Theorems no_silent_wrap_uri / no_silent_wrap_pair (for EVERY byte string accepted, a service text that is numeric in strtoul's syntax has a value in 0..65535 — after the colon, as "
-         "scheme, as pair argument with sign/blanks), pair_service_unchanged, port_of_encode4/6. Correspondence against the real resolver: literals x ports in every documented spelling, out-of-range "
+         "scheme, as pair argument with sign/blanks), pair_service_unchanged, uri_host_port_is_pair / uri_bracket_port_is_pair (spelling equivalence: 'host:port' and '[h]:port' hand the same host and service to the resolver as the pair constructor, for every plain host and in-range port text), port_of_encode4/6. Correspondence against the real resolver: literals x ports in every documented spelling, out-of-range "
          "numerics in every position; getaddrinfo arguments and to_string composition compared with the model; accessors, canonical host text, re-parse equality monitored.", "5 C12",
          TB + "glibc's numeric-service rule (strtoul syntax, value mod 2^16) and canonical host text are trusted/observed. Spelling-equivalence is validated by the correspondence (model dissector == real "
-         "constructor on every generated spelling), the general spelling theorems are not proved yet.",
+         "constructor on every generated spelling), further spellings (schemes, service names) and the text round-trip through glibc's canonical form are validated by the correspondence only.",
          "Coq proof (range check covers every service position, all inputs) + differential execution against the real resolver"),
  "C13": ("proof", "Theorems eq_equivalence, lt_irrefl, lt_trans, lt_trichotomy, hash_respects_eq (every hash function), encode4_injective, encode6_injective, families_never_equal. Correspondence: a pool "
          "of Addresses of every provenance (parsed spellings, Address(port), local/peer/accept/datagram-source addresses of real IPv4 and IPv6 loopback sockets, single-bit neighbours); raw sockaddr bytes "
@@ -93,24 +93,24 @@ CLAIMED = {
          TB + "EINTR injected at the libc boundary by the virtual OS.",
          "Coq proof (poll retry loop, for all scripts) + correspondence with injected EINTR"),
  "C14": ("proof", "Theorems for EVERY fault overlay and script: tcp/udp/acceptor_constructor_ledger and accept_ledger (success only if no set-up call failed; on failure the FIRST failing call's errno is "
-         "thrown as std::system_error, nothing is attempted after it, and what had been opened is closed exactly once), first_failure_is_thrown; silent_drop_refuted: the driver-side clause is false for AcceptorAsync / "
+         "thrown as std::system_error, nothing is attempted after it, and what had been opened is closed exactly once), first_failure_is_thrown; ledger_balanced_all_programs / everything_destroyed_nothing_leaked (EVERY program over the synchronous constructors, accept and destruction that catches what is thrown: opened = closed + held as multisets, held descriptors distinct); silent_drop_refuted: the driver-side clause is false for AcceptorAsync / "
          "SocketUdpAsync (witness, recorded as known finding). Correspondence + monitor: fault enumeration - every position of the system-call trace of a scenario set covering every public constructor and "
          "operation failed in turn with each plausible errno (set-up calls through an overlay, scripted calls through the script; pairs sampled); compared with the model entry by entry; monitored on the "
          "implementation: failure reported (exception / disconnect handler / failed future / exception out of Step), descriptor ledger (none leaked, none closed twice, none foreign), no crash under ASan+UBSan.", "5 C14",
-         TB + "Partial: the whole-scenario ledger and 'remains usable' are decided on the enumerated scenarios (model-checked against the implementation), the theorems cover the constructors and accept. "
+         TB + "Partial: the ledger theorem covers every program over the synchronous constructors, accept and destruction; for buffered / asynchronous / driver objects the ledger and 'remains usable' are decided on the enumerated scenarios (model-checked against the implementation). "
          "getaddrinfo/getnameinfo failures are exercised by C12's check. TLS set-up failures: C18.",
          "Coq proof (constructor/accept ledger for all fault overlays) + exhaustive single-fault enumeration with model correspondence and descriptor ledger"),
- "C15": ("proof", "Theorems for every size, errno and script continuation: unlimited_send_on_dead_peer_throws / try_send_on_dead_peer_throws (one poll, one send, then std::system_error - no blocking, no retry), "
+ "C15": ("proof", "Theorems for every size, errno and script continuation: unlimited_send_on_dead_peer_throws / try_send_on_dead_peer_throws / limited_send_on_dead_peer_throws (one poll, one send, then std::system_error - no blocking, no retry, in every time-out mode), "
          "receive_on_reset_throws, receive_after_close_throws_closed, delivered_is_what_recv_returned, failing_send_leaves_a_prefix, every_send_uses_nosignal, data_before_disconnect (POLLIN wins over POLLHUP/POLLERR). "
          "Correspondence + monitor: bidirectional transfers on basic / buffered / accepted / asynchronous TCP sockets in every timeout mode against a scripted TCP endpoint whose peer closes, half-closes or resets at "
          "a random byte offset of either direction (inside a Send, with unread data, reset keeping or discarding unread data, getpeername failing with ENOTCONN after a reset); the virtual kernel raises SIGPIPE "
          "for an EPIPE send without MSG_NOSIGNAL; monitored on the implementation: no signal/crash/hang, operations on the dead connection throw, disconnect handler exactly once, no future left pending, "
          "delivered bytes = prefix of the peer's stream (complete for an orderly close).", "5 C15",
-         TB + "Partial: the scripted endpoint's post-mortem answers follow Linux TCP (assumed); limited-timeout Send on a dead peer is covered by the correspondence and C07's theorems, not by a dedicated theorem; TLS variants belong to C18.",
+         TB + "Partial: the scripted endpoint's post-mortem answers follow Linux TCP (assumed); TLS variants belong to C18.",
          "Coq proof (dead-peer scripts, all sizes/errnos) + correspondence against a scripted TCP endpoint with peer close/half-close/reset at every offset"),
  "C18": ("proof", "Theorems about the TLS glue over an ARBITRARY scripted engine (OpenSSL is an oracle like the OS): outside_the_engine_the_glue_only_waits (between engine calls the glue issues polls and clock "
          "readings only - every byte to or from the connection passes through the engine's BIO callbacks), delivery_needs_engine_data (a Receive reporting n bytes returns what the engine's SSL_read returned: "
-         "nothing before the engine finished the handshake, nothing from a non-TLS peer), fatal_engine_errors_throw, write_accounting, query_requests_write_only_for_handshake, suppressed_write_poll_is_restored. "
+         "nothing before the engine finished the handshake, nothing from a non-TLS peer), fatal_engine_errors_throw, write_accounting, query_requests_write_only_for_handshake, suppressed_write_poll_is_restored, idle_client_requests_write. "
          "Correspondence: the real glue (socket_tls_impl.cpp, driver TLS hooks, built WITH_TLS) runs against harness/fakessl.cpp, a scripted engine with OpenSSL's API, the model against TlsModel.engine, on scripts "
          "produced by a virtual TLS-1.3 endpoint and peer (client/server role, basic/buffered/async, every timeout mode, segmentation, back pressure, short writes, non-TLS peer, close_notify, injected fatal errors); "
          "monitored: no engine-foreign byte on the wire, delivery only after init, non-TLS peer => exception, write interest never lost while the handshake owes a flight, wait budget of limited calls, byte-exact plaintext streams.", "5 C18",
@@ -145,7 +145,7 @@ m = {
  "checks": checks,
  "not_applicable": [{"property_id": p["id"], "reason": "check not built yet (framework under construction; see DESIGN.md section 10)"}
                     for p in props if p["id"] not in CLAIMED],
- "notes": "fix: commits in /repo (see known_findings.txt): fb5c17a de31ff3 76d1b2d fc32a01 d76eda8 3d49b84",
+ "notes": "fix: commits in /repo (see known_findings.txt): fb5c17a de31ff3 76d1b2d fc32a01 d76eda8 3d49b84 1f1eb9b 6287df8",
 }
 json.dump(m, open(os.path.join(VERIF, "MANIFEST.json"), "w"), indent=1)
 print("claimed:", sorted(CLAIMED))
